@@ -10,18 +10,23 @@ open Hive
 
 /-- One sub-state per section; every case header resets all of them. -/
 structure DSt where
+  p0 : Promise.St
   ev : Events.St
   it : EventsRelink.LSt
   pr : Promise.St
   vn : Notifier.St
 
-def dinit : DSt := { ev := Events.init, it := EventsRelink.linit, pr := Promise.init, vn := Notifier.init }
+def dinit : DSt := { p0 := Promise.init, ev := Events.init, it := EventsRelink.linit, pr := Promise.init, vn := Notifier.init }
 
 def dstep (s : DSt) (toks : List String) : DSt × String :=
   match toks with
   | "ev" :: r => let (x, o) := Events.stepLine s.ev r; ({ s with ev := x }, o)
   | "it" :: r => let (x, o) := EventsRelink.stepLine s.it r; ({ s with it := x }, o)
   | "pr" :: r => let (x, o) := Promise.stepLine s.pr r; ({ s with pr := x }, o)
+  | "p0" :: r =>   -- the parameterless promise.Event: no argument, reported as 0
+    match r with
+    | ["trigger", v] => if v == "0" then let (x, o) := Promise.stepLine s.p0 r; ({ s with p0 := x }, o) else (s, "bad-op")
+    | _ => let (x, o) := Promise.stepLine s.p0 r; ({ s with p0 := x }, o)
   | "vn" :: r => let (x, o) := Notifier.stepLine s.vn r; ({ s with vn := x }, o)
   | "vr" :: r => (s, NotifierRace.checkLine r)
   | "mt" :: r => (s, EventsSpec.checkMT r)
